@@ -118,13 +118,28 @@ class heap(object):
         return ptr_page["size"]
 
 
+def _clamp_to_root(elements):
+    """Resolve '.' and '..' in the path @elements; '..' cannot climb above the
+    root (ie. the sandbox base directory)"""
+    out = []
+    for elt in elements:
+        if elt == '.':
+            continue
+        if elt == '..':
+            if out:
+                out.pop()
+            continue
+        out.append(elt)
+    return out
+
+
 def windows_to_sbpath(path):
     """Convert a Windows path to a valid filename within the sandbox
     base directory.
 
     """
     path = [elt for elt in path.lower().replace('/', '_').split('\\') if elt]
-    return os.path.join(BASE_SB_PATH, *path)
+    return os.path.join(BASE_SB_PATH, *_clamp_to_root(path))
 
 
 def unix_to_sbpath(path):
@@ -133,7 +148,7 @@ def unix_to_sbpath(path):
 
     """
     path = [elt for elt in path.split('/') if elt]
-    return os.path.join(BASE_SB_PATH, *path)
+    return os.path.join(BASE_SB_PATH, *_clamp_to_root(path))
 
 def get_fmt_args(fmt, cur_arg, get_str, get_arg_n):
     idx = 0
